@@ -259,6 +259,17 @@ func runXfer(w *world, x *xfer, mon *wireMon, partition, tail bool) {
 			outstanding += n
 		}
 	}
+	// flow-controlled senders have not written everything yet: what they still hold counts, and each of those
+	// messages is written only after an acknowledgement (which may be a delayed one) came back
+	paced := 0
+	for _, d := range x.dirs {
+		if d.cbWrites {
+			for i := len(d.msgs); i < len(d.sizes); i++ {
+				outstanding += d.sizes[i]
+				paced++
+			}
+		}
+	}
 	lat := time.Duration(w.cfg.Fault[0].LatencyUs+w.cfg.Fault[0].JitterUs) * time.Microsecond
 	minMTU := 1191
 	for _, s := range w.cfg.Side {
@@ -274,7 +285,7 @@ func runXfer(w *world, x *xfer, mon *wireMon, partition, tail bool) {
 		}
 		maxPause += time.Duration(len(d.sizes)) * d.readDelay
 	}
-	bound := 6*rmax + time.Duration(pktsOutstanding)*(2*lat+200*time.Millisecond)*2 + maxPause + faultPhaseSlack(x)
+	bound := 6*rmax + time.Duration(pktsOutstanding+paced)*(2*lat+200*time.Millisecond)*2 + maxPause + faultPhaseSlack(x)
 	r := w.run(func() bool {
 		return x.writersDone() && x.allSettled() && x.drained() && x.tailDelivered() && !x.readablePending()
 	}, x.healAt+bound)
